@@ -134,14 +134,18 @@ def run(ck):
              "3k polls for k=2 (20) and k=3 (1680) [k=4: all 369600 in the thorough tier, every 8th in the quick tier], every poll sequence of "
              "length <=7 (k=2) and <=5 (k=3) incl. truncated schedules and polls of finished tasks, then seeded random "
              "schedules with k in 2..6, then (oracle only, interleaving chosen by tokio) 250/2000 rounds each of k=2,4,8 "
-             "spawned tasks on a 4-worker multi-thread runtime; each case is run on the extracted Coq model and on the real code and the "
+             "spawned tasks on an 8-worker multi-thread runtime (every second round releases the k first users together through a barrier), and (oracle only) "
+             "24 purge-tick cases: virtual time is advanced past the period of the group's background purge task once or twice between two uses of a "
+             "keyspace, with remove_tombstones healthy, failing, or failing after a partial success, and the writes through the mailbox obtained "
+             "before the tick, through a fresh lookup and into a second keyspace all have to be in the registered sets; each case is run on the extracted Coq model and on the real code and the "
              "observables (polls needed per task, id set behind each task's mailbox, id set behind a later lookup, "
              "published change counter = live actor's) are compared; non-trivial = distinct (case,result) pairs in "
              "which at least two tasks missed the lookup and spawned an actor",
         trusted_base=TRUSTED,
         assumptions=[
             "one keyspace name; distinct names never interact (separate map entries); every caller reaches the map "
-            "through get_or_create_keyspace (the only caller of add_state); load_states runs before the node serves",
+            "through get_or_create_keyspace (the only caller of add_state); load_states runs before the node serves; the "
+            "background purge task only reads the map (not a model transition; exercised by the purge-tick cases)",
             "the atomic steps of a task are the two RwLock sections, the lookup and the actor's handling of one "
             "message; between them only task-local data is touched (read off group.rs)",
             "each task sends one mutation with a fresh stamp from the node clock and a distinct document id, so the "
